@@ -146,6 +146,12 @@ func rawOp(w *world.World, o world.Op) func() {
 				_ = gt.GetResourceUsageDAOInfo()
 			}
 			_ = pc.GetPlacementRules()
+			for _, app := range pc.GetRejectedApplications() {
+				_ = app.GetApplicationSummary(world.RMID)
+			}
+			for _, app := range pc.GetCompletedApplications() {
+				_ = app.GetApplicationSummary(world.RMID)
+			}
 		}
 	}
 	panic("c14: unknown concurrent op " + o.K)
@@ -201,6 +207,7 @@ func c14Base() *world.Scenario {
 			{ID: "app2", Queue: "root.p.b", User: "u2", Groups: []string{"g2"}},
 			{ID: "app3", Queue: "root.p.dyn", User: "u3", Groups: []string{"g1"}},
 			{ID: "gapp", Queue: "root.p.b", User: "u2", Groups: []string{"g2"}, Gang: "Soft", PlaceholderAsk: world.M(2)},
+			{ID: "bad", Queue: "root.a.not.a.parent", User: "u1", Groups: []string{"g1"}},
 		},
 		Asks: []world.AskSpec{
 			{Key: "a1", App: "app1", Res: world.M(1), Create: 1001},
@@ -235,6 +242,9 @@ func c14Scenarios() []c14Scenario {
 		mk("S8-user-tracker-creation", []world.Op{op("NODE_ADD", "n1"), op("NODE_ADD", "n2"), op("APP_ADD", "app2"), op("ASK", "b1")}, o("SCHEDULE"), o("ASK_BOUND", "b2"), o("REST")),
 		mk("S9-health-reload", setup, o("HEALTH"), []world.Op{{K: "CONFIG", N: 1}}, o("SCHEDULE")),
 		mkReserve("S10-reserve-vs-ask-removal"),
+		mkPreempt("S4-preemption-release-rest"),
+		mk("S11-rejected-application-rest", setup, o("APP_ADD", "bad"), o("REST"), o("SCHEDULE")),
+		mk("S12-reload-dynamic-queue-cleanup", setup, []world.Op{{K: "CONFIG", N: 1}}, o("APP_ADD", "app3"), o("CLEAN_QUEUES")),
 	}
 }
 
@@ -243,6 +253,13 @@ func mkReserve(name string) c14Scenario {
 	s := scnReserveBind("c14-" + name)
 	s.Prefix = s.Prefix[:len(s.Prefix)-3] // up to ASK(a2) SCHEDULE: both nodes hold one allocation, b1 not asked yet
 	s.Prefix = append(s.Prefix, op("ASK", "b1"))
+	return c14Scenario{Name: name, Scn: s, Threads: [][]world.Op{{op("SCHEDULE")}, {op("RELEASE", "b1")}, {op("REST")}}}
+}
+
+// queue preemption decision || release of a victim candidate || REST reads
+func mkPreempt(name string) c14Scenario {
+	s := scnPreempt("c14-"+name, true)
+	s.Prefix = append(s.Prefix, op("ASK", "a1"))
 	return c14Scenario{Name: name, Scn: s, Threads: [][]world.Op{{op("SCHEDULE")}, {op("RELEASE", "b1")}, {op("REST")}}}
 }
 
@@ -374,7 +391,7 @@ func c14Shard(tier string, shard, n int) *CustomResult {
 		sc := sc
 		exec := func(prefix []int) (*ilv.Result, string, string) {
 			res, digest, viol, _ := c14Exec(sc, prefix)
-			for attempt := 0; attempt < 2 && res.Harness != "" && strings.HasPrefix(res.Harness, "did not settle"); attempt++ {
+			for attempt := 0; attempt < 3 && res.Harness != "" && (strings.HasPrefix(res.Harness, "did not settle") || strings.HasPrefix(res.Harness, "replay divergence")); attempt++ {
 				// harness trouble is never a verdict: give the stray goroutines time to finish and run the schedule again
 				time.Sleep(200 * time.Millisecond)
 				res, digest, viol, _ = c14Exec(sc, prefix)
@@ -445,6 +462,14 @@ func checkC14(tier string, seed int64) *CustomResult {
 	bound := 1
 	if tier == "thorough" {
 		bound = 2
+	}
+	if tier == "thorough" || os.Getenv("VERIF_RACEPASS") != "" {
+		rcov, rfound, rharness := runRacePass(40)
+		for k, x := range rcov {
+			res.Coverage[k] = x
+		}
+		res.Violations = append(res.Violations, rfound...)
+		res.Harness = append(res.Harness, rharness...)
 	}
 	ex, _ := res.Coverage["executions"].(int64)
 	fs, _ := res.Coverage["distinct_final_states"].(int64)
